@@ -42,12 +42,12 @@ def run_c01(tier, seed):
     cases = 24 if tier == "quick" else 1500           # messages per shard
     binary = vlib.build_harness("parser", "plain")
     res = vlib.run_resumable(binary, ["--prop", "c01", "--seed", str(seed), "--cases", str(cases), "--multi", "32"], nsh,
-                             timeout=900 if tier == "quick" else 7200, work=work)
+                             timeout=300 if tier == "quick" else 7200, work=work)
     counters, distinct, samples, stats = vlib.collect_runs(v, res)
     # second pass of a sample under ASan+UBSan (same inputs, fewer messages)
     abin = vlib.build_harness("parser", "asan")
     res2 = vlib.run_resumable(abin, ["--prop", "c01", "--seed", str(seed), "--cases", str(max(2, cases // 8)), "--multi", "8"], nsh,
-                              timeout=900 if tier == "quick" else 7200, work=work, env=vlib.SAN_ENV_EXPLORE, tag="a")
+                              timeout=300 if tier == "quick" else 7200, work=work, env=vlib.SAN_ENV_EXPLORE, tag="a")
     c2, d2, s2, st2 = vlib.collect_runs(v, res2)
     stats["asan_pass"] = dict(evaluations=int(c2.get("evaluations", 0)), **st2)
     extra = dict(cut_classes_hit=sorted(counters.get("cutclasses", [])), n_cut_classes=len(counters.get("cutclasses", [])))
@@ -62,11 +62,11 @@ def run_c04(tier, seed):
     nsh = vlib.NCPU
     cases = 1500 if tier == "quick" else 120000
     binary = vlib.build_harness("parser", "plain")
-    res = vlib.run_resumable(binary, ["--prop", "c04", "--seed", str(seed), "--cases", str(cases)], nsh, timeout=900 if tier == "quick" else 7200, work=work)
+    res = vlib.run_resumable(binary, ["--prop", "c04", "--seed", str(seed), "--cases", str(cases)], nsh, timeout=300 if tier == "quick" else 7200, work=work)
     counters, distinct, samples, stats = vlib.collect_runs(v, res)
     abin = vlib.build_harness("parser", "asan")
     res2 = vlib.run_resumable(abin, ["--prop", "c04", "--seed", str(seed + 1000), "--cases", str(max(10, cases // 10))], nsh,
-                              timeout=900 if tier == "quick" else 7200, work=work, env=vlib.SAN_ENV_EXPLORE, tag="a")
+                              timeout=300 if tier == "quick" else 7200, work=work, env=vlib.SAN_ENV_EXPLORE, tag="a")
     c2, d2, s2, st2 = vlib.collect_runs(v, res2)
     distinct |= d2
     stats["asan_pass"] = dict(evaluations=int(c2.get("evaluations", 0)), **st2)
@@ -81,12 +81,12 @@ def run_c03(tier, seed):
     nsh = vlib.NCPU
     cases = 12000 if tier == "quick" else 400000
     abin = vlib.build_harness("parser", "asan")
-    res = vlib.run_resumable(abin, ["--prop", "c03", "--seed", str(seed), "--cases", str(cases)], nsh, timeout=900 if tier == "quick" else 7200,
+    res = vlib.run_resumable(abin, ["--prop", "c03", "--seed", str(seed), "--cases", str(cases)], nsh, timeout=300 if tier == "quick" else 7200,
                              work=work, env=vlib.SAN_ENV_EXPLORE, tag="a")
     counters, distinct, samples, stats = vlib.collect_runs(v, res)
     # allocation monitor + CPU budget pass in the plain flavour (replaced operator new)
     pbin = vlib.build_harness("parser", "plain")
-    res2 = vlib.run_resumable(pbin, ["--prop", "c03", "--seed", str(seed), "--cases", str(cases)], nsh, timeout=900 if tier == "quick" else 7200, work=work, tag="p")
+    res2 = vlib.run_resumable(pbin, ["--prop", "c03", "--seed", str(seed), "--cases", str(cases)], nsh, timeout=300 if tier == "quick" else 7200, work=work, tag="p")
     c2, d2, s2, st2 = vlib.collect_runs(v, res2)
     stats["alloc_pass"] = dict(evaluations=int(c2.get("evaluations", 0)), monitor_counts=c2.get("counts", {}), **st2)
     counters["evaluations"] = counters.get("evaluations", 0) + c2.get("evaluations", 0)
